@@ -5,17 +5,6 @@ use super::*;
 pub mod spec;
 pub fn stub_format(_a: core::fmt::Arguments<'_>) -> String { String::new() }
 
-// C11: the modular index helper is the Euclidean remainder for every isize index and every table size 1..=256
-#[kani::proof]
-#[kani::stub(alloc::fmt::format, stub_format)]
-fn c11_k_index_of() {
-  let index: isize = kani::any();
-  let size: usize = kani::any();
-  kani::assume(size >= 1 && size <= 256);
-  let r = AbstractCulture::new().index_of(index, size);
-  assert!(r < size, "result is an index of the table");
-  // (index - r) is a multiple of size: checked without a second division
-  let q = (index as i128 - r as i128) / (size as i128);
-  assert!(q * (size as i128) == index as i128 - r as i128, "index == q*size + r");
-  kani::cover!(index == isize::MIN && size == 7, "index_of reachable (isize::MIN)");
-}
+// C11: AbstractCulture::index_of with a SYMBOLIC table size is a Verus obligation (verus/c11_index_of.rs); the Kani form
+// (64/128-bit division by a symbolic size) did not finish in 10 min. Per concrete table size it is part of every
+// generated cycle harness (c11_cycle_*).
